@@ -90,6 +90,7 @@ theorem C05_nonterminal : C05_nonterminal_statement := by
   intro s c d hk hmen ⟨m, ms, hm⟩ hmat
   refine ⟨_, C05_nonterminal_branch s c d m ms hm (kingHasMove_ne_none s hk), ?_⟩
   have h := C05_heuristic_lt s c hk hmen hmat
+  rw [clampHeuristic_id h.1 h.2]
   have hp : Ev.posInf = 10000 := rfl
   have hn : Ev.negInf = -10000 := rfl
   unfold Ev.isTerminal
@@ -126,15 +127,25 @@ def elevenQ : State :=
   { pieces := { wk := 0x40, wq := 0x343434140000, bk := 0x8 },
     turn := .white, castleW := .noRights, castleB := .noRights, ep := none, halfmove := 0, fullmove := 1 }
 
-/-- **the material hypothesis cannot be dropped**: eleven queens against a bare king (one king and 12 men a side at
-most, White to move with a legal move, not mate) is scored `10020 ≥ POS_INF`, a "mate" score.  (Known limit of the
-evaluator recorded in DESIGN.md §6 C05; material 9900.) -/
+/-- **the material hypothesis cannot be dropped from the bound on the HEURISTIC SUM**: eleven queens against a bare
+king (one king and 12 men a side at most, White to move with a legal move, not mate) has the weighted sum
+`10020 ≥ POS_INF`, which looks like a "mate" score.  Before the repair of defect F10 this was also the value of
+`evaluate` (the theorem then read `evaluate elevenQ .white 0 = some 10020`; material 9900; DESIGN.md §6 C05).
+Since the repair `Evaluator::evaluate` clamps the heuristic result: see `C05_unbounded_example_repaired`. -/
 theorem C05_unbounded_example : OneKingEach elevenQ ∧ (∀ c, men elevenQ c ≤ 16) ∧
     (∃ m ms, legalMoves? elevenQ = some (m :: ms)) ∧ materialDiff elevenQ .white = 9900 ∧
-    evaluate elevenQ .white 0 = some 10020 ∧ Ev.isTerminal 10020 = true := by
+    evalHeuristic (Variation.of elevenQ) .white = 10020 ∧ Ev.isTerminal 10020 = true := by
   refine ⟨fun c => by cases c <;> decide +kernel, fun c => by cases c <;> decide +kernel,
     has_move_of_shortcut elevenQ (by decide +kernel) (by decide +kernel) (by decide +kernel) (by decide +kernel),
     by decide +kernel, by decide +kernel, by decide +kernel⟩
+
+/-- **after the repair of F10** the same position evaluates to `POS_INF - 1 = 9999` / `NEG_INF + 1 = -9999`, which
+is not a terminal score: the clause "others never as mate" of C05 now holds for it (and for every position, see
+`C05_all` in `Wee/Props/Clamped.lean`). -/
+theorem C05_unbounded_example_repaired :
+    evaluate elevenQ .white 0 = some 9999 ∧ evaluate elevenQ .black 0 = some (-9999) ∧
+    Ev.isTerminal 9999 = false ∧ Ev.isTerminal (-9999) = false := by
+  refine ⟨by decide +kernel, by decide +kernel, by decide +kernel, by decide +kernel⟩
 
 end Wee.C05
 
